@@ -12,10 +12,12 @@ package weshnet
 import (
 	"context"
 	"fmt"
+	"sync/atomic"
 	"testing"
 	"time"
 
 	"github.com/libp2p/go-libp2p/core/crypto"
+	"github.com/libp2p/go-libp2p/p2p/host/eventbus"
 
 	"berty.tech/weshnet/v2/internal/vharness"
 	"berty.tech/weshnet/v2/pkg/protocoltypes"
@@ -39,7 +41,8 @@ func TestVerifC05Dist(t *testing.T) {
 		var reps []*vReplica
 		a := node.newAccount()
 		reps = append(reps, a)
-		if rng.Intn(2) == 0 {
+		scripted := si%3 == 0 // a late second device of the first account, see below
+		if scripted || rng.Intn(2) == 0 {
 			reps = append(reps, node.newDevice(a))
 		}
 		for k := 0; k < 1+rng.Intn(2); k++ {
@@ -51,6 +54,11 @@ func TestVerifC05Dist(t *testing.T) {
 			dev    crypto.PubKey
 			devID  uint64
 			active bool
+			// entries the store has announced on its bus so far
+			announced atomic.Int64
+			// the log held at activation, as model entries, and the hashes of those entries
+			before    []string
+			beforeSet map[string]bool
 		}
 		var ids vIDs
 		ps := make([]*party, len(reps))
@@ -61,8 +69,38 @@ func TestVerifC05Dist(t *testing.T) {
 			}
 			raw, _ := gc.DevicePubKey().Raw()
 			ps[i] = &party{r: r, gc: gc, dev: gc.DevicePubKey(), devID: ids.id(string(raw))}
+			sub, err := gc.metadataStore.EventBus().Subscribe(new(EventMetadataReceived), eventbus.BufSize(256))
+			if err != nil {
+				t.Fatal(err)
+			}
+			go func(p *party) {
+				for range sub.Out() {
+					p.announced.Add(1)
+				}
+			}(ps[i])
+			defer sub.Close()
 		}
 		var desc []string
+		// a log as entries of the model (announcements of devices and of chain keys), in canonical order
+		modelLog := func(ms *MetadataStore) (entries []string, hashes map[string]bool) {
+			hashes = map[string]bool{}
+			for _, e := range vCanonical(ms.OpLog()) {
+				_, ev, err := openMetadataEntry(ms.OpLog(), e, g)
+				if err != nil {
+					continue
+				}
+				switch x := ev.(type) {
+				case *protocoltypes.GroupMemberDeviceAdded:
+					entries = append(entries, fmt.Sprintf("MemberDevice %d %d", ids.id(string(x.MemberPk)), ids.id(string(x.DevicePk))))
+				case *protocoltypes.GroupDeviceChainKeyAdded:
+					entries = append(entries, fmt.Sprintf("ChainKeyFor %d %d", ids.id(string(x.DevicePk)), ids.id(string(x.DestMemberPk))))
+				default:
+					continue
+				}
+				hashes[e.GetHash().String()] = true
+			}
+			return entries, hashes
+		}
 		deliver := func(from, to int) {
 			vDeliver(ctx, t, ps[to].gc.metadataStore, ps[from].gc.metadataStore.OpLog().Heads().Slice()...)
 			desc = append(desc, fmt.Sprintf("%d->%d", from, to))
@@ -74,6 +112,8 @@ func TestVerifC05Dist(t *testing.T) {
 			actx, acancel := context.WithTimeout(ctx, 20*time.Second)
 			defer acancel()
 			done := make(chan error, 1)
+			// what the device holds when it is activated (the history path scans this)
+			ps[i].before, ps[i].beforeSet = modelLog(ps[i].gc.metadataStore)
 			go func() { done <- ps[i].gc.ActivateGroupContext(nil) }()
 			select {
 			case err := <-done:
@@ -86,10 +126,61 @@ func TestVerifC05Dist(t *testing.T) {
 			ps[i].active = true
 			desc = append(desc, fmt.Sprintf("activate %d", i))
 		}
+		// a causally closed PREFIX of a log: some entry (not necessarily a head) and its ancestors - what a
+		// replica holds when replication was interrupted: e.g. the chain keys a joining device published
+		// for the existing members, without the announcement of that device, which it writes afterwards
+		deliverPrefix := func(from, to int) {
+			es := ps[from].gc.metadataStore.OpLog().GetEntries().Slice()
+			if len(es) == 0 {
+				return
+			}
+			e := es[rng.Intn(len(es))]
+			vDeliver(ctx, t, ps[to].gc.metadataStore, e)
+			desc = append(desc, fmt.Sprintf("%d-prefix->%d", from, to))
+		}
+		// the store announces its entries on its bus asynchronously: wait until party i's store has announced
+		// all it holds, so that an activation that follows does not also see them as live events (a joining
+		// device would then publish its chain key twice, and an entry delivered before the activation would
+		// be handled as if it had arrived after it: both hide the scenario below)
+		drain := func(i int) {
+			deadline := time.Now().Add(5 * time.Second)
+			for int(ps[i].announced.Load()) < ps[i].gc.metadataStore.OpLog().Len() && time.Now().Before(deadline) {
+				time.Sleep(time.Millisecond)
+			}
+		}
+		if scripted {
+			// device 0 of member M is active; another account X learns of it, joins (its chain key for M,
+			// THEN its own announcement); the late device 1 of M holds X's chain-key entry but not yet X's
+			// announcement when it is activated; the rest arrives afterwards
+			activate(0)
+			deliver(0, 2)
+			drain(2)
+			activate(2)
+			xms := ps[2].gc.metadataStore
+			xraw, _ := ps[2].dev.Raw()
+			for _, e := range vCanonical(xms.OpLog()) {
+				_, ev, err := openMetadataEntry(xms.OpLog(), e, g)
+				if err != nil {
+					continue
+				}
+				if ck, ok := ev.(*protocoltypes.GroupDeviceChainKeyAdded); ok && string(ck.DevicePk) == string(xraw) {
+					vDeliver(ctx, t, ps[1].gc.metadataStore, e)
+					desc = append(desc, "2-chain-key-entry->1")
+					break
+				}
+			}
+			drain(1)
+			activate(1)
+		}
 		// random interleaving of activations and deliveries
 		for step := 0; step < 4+rng.Intn(8); step++ {
-			if rng.Intn(3) == 0 {
+			if r := rng.Intn(6); r < 2 {
 				activate(rng.Intn(len(ps)))
+			} else if r < 4 {
+				from, to := rng.Intn(len(ps)), rng.Intn(len(ps))
+				if from != to {
+					deliverPrefix(from, to)
+				}
 			} else {
 				from, to := rng.Intn(len(ps)), rng.Intn(len(ps))
 				if from != to {
@@ -140,20 +231,7 @@ func TestVerifC05Dist(t *testing.T) {
 			}
 		}
 		// the converged log as model entries
-		var entries []string
-		ms := ps[0].gc.metadataStore
-		for _, e := range vCanonical(ms.OpLog()) {
-			_, ev, err := openMetadataEntry(ms.OpLog(), e, g)
-			if err != nil {
-				continue
-			}
-			switch x := ev.(type) {
-			case *protocoltypes.GroupMemberDeviceAdded:
-				entries = append(entries, fmt.Sprintf("MemberDevice %d %d", ids.id(string(x.MemberPk)), ids.id(string(x.DevicePk))))
-			case *protocoltypes.GroupDeviceChainKeyAdded:
-				entries = append(entries, fmt.Sprintf("ChainKeyFor %d %d", ids.id(string(x.DevicePk)), ids.id(string(x.DestMemberPk))))
-			}
-		}
+		entries, _ := modelLog(ps[0].gc.metadataStore)
 		var pairs []string
 		ok, note := true, ""
 		for xi, x := range ps {
@@ -170,11 +248,44 @@ func TestVerifC05Dist(t *testing.T) {
 			}
 		}
 		out.Emit(vharness.Case{
-			Kind: "distribution", Coq: fmt.Sprintf("CDist %s %s", vharness.List(entries), vharness.List(pairs)),
+			Kind: "distribution", Coq: fmt.Sprintf("DDist %s %s", vharness.List(entries), vharness.List(pairs)),
 			Key:  fmt.Sprintf("%d|%v", si, desc), Nontrivial: len(ps) >= 3, OracleOK: ok, Note: note,
 			Sig:    "chain key not distributed to every member device",
 			Replay: map[string]any{"devices": len(ps), "history": desc},
 		})
+		// per device: the log it held when it was activated, what arrived afterwards, and which keys it holds
+		for xi, x := range ps {
+			var after []string
+			ms := x.gc.metadataStore
+			for _, e := range vCanonical(ms.OpLog()) {
+				if x.beforeSet[e.GetHash().String()] {
+					continue
+				}
+				_, ev, err := openMetadataEntry(ms.OpLog(), e, g)
+				if err != nil {
+					continue
+				}
+				switch y := ev.(type) {
+				case *protocoltypes.GroupMemberDeviceAdded:
+					after = append(after, fmt.Sprintf("MemberDevice %d %d", ids.id(string(y.MemberPk)), ids.id(string(y.DevicePk))))
+				case *protocoltypes.GroupDeviceChainKeyAdded:
+					after = append(after, fmt.Sprintf("ChainKeyFor %d %d", ids.id(string(y.DevicePk)), ids.id(string(y.DestMemberPk))))
+				}
+			}
+			mraw, _ := x.gc.MemberPubKey().Raw()
+			var obs []string
+			for _, y := range ps {
+				if x != y {
+					obs = append(obs, fmt.Sprintf("(%d, %v)", y.devID, x.r.ss.IsChainKeyKnownForDevice(ctx, gpk, y.dev)))
+				}
+			}
+			out.Emit(vharness.Case{
+				Kind: "receiving", Coq: fmt.Sprintf("DRecv %d %s %s %s", ids.id(string(mraw)), vharness.List(x.before), vharness.List(after), vharness.List(obs)),
+				Key:  fmt.Sprintf("%d|%d|%v", si, xi, desc), Nontrivial: len(x.before) > 0 && len(after) > 0, OracleOK: true,
+				Sig:    "chain key addressed to the member not registered by the device",
+				Replay: map[string]any{"devices": len(ps), "device": xi, "history": desc, "held_at_activation": x.before, "arrived_afterwards": after},
+			})
+		}
 		for _, p := range ps {
 			p.gc.Close()
 			p.r.db.Close()
